@@ -61,7 +61,7 @@ fn draw_steps(rng: &mut Rng, index: u64, stats: &mut Stats) -> Vec<Step> {
             let mut item = Item::simple(&format!("ids{calls}-{k}"), &id_program_ordered(calls, &limits, rng.chance(1, 2)));
             item.fmt = PFmt { compressed: rng.chance(1, 3), precision: *rng.pick(&[0usize, 5, 10, 20]) };
             item.nondet = true;
-            Step { item, chunk: Chunking::NONE, plan: FaultPlan::default(), thread: rng.chance(1, 2), subject: true, fastrand_seed: if rng.chance(1, 3) { Some(draw_fastrand_seed(rng, stats)) } else { None } }
+            Step { item, chunk: Chunking::NONE, plan: FaultPlan::default(), thread: rng.chance(1, 2), subject: true, fastrand_seed: if rng.chance(1, 3) { Some(draw_fastrand_seed(rng, stats)) } else { None }, clock: Some(crate::hist::draw_clock(rng)) }
         })
         .collect()
 }
